@@ -171,8 +171,8 @@ func compareSummaries(p *Program, code, spec *Summary) *equivResult {
 	}
 	// --- effects: an unordered collection per region (independent statements may be reordered; data
 	// dependences are part of the terms, random draws carry their sequence number)
-	code.Effects = mergeExclusiveWrites(code.Effects)
-	spec.Effects = mergeExclusiveWrites(spec.Effects)
+	code.Effects = mergeChecks(mergeExclusiveWrites(code.Effects))
+	spec.Effects = mergeChecks(mergeExclusiveWrites(spec.Effects))
 	if len(code.Effects) != len(spec.Effects) {
 		fail("effects differ: code %s | reference %s", effectKinds(p, code), effectKinds(p, spec))
 	} else {
@@ -283,6 +283,32 @@ func mergeExclusiveWrites(effects []Effect) []Effect {
 				merged[j] = true
 			}
 		}
+		out = append(out, e)
+	}
+	return out
+}
+
+// mergeChecks: a pure call that may panic, evaluated several times with the same arguments, rejects its input the first
+// time or never: the executions of one region are one check under the disjunction of their guards.
+func mergeChecks(effects []Effect) []Effect {
+	var out []Effect
+	index := map[string]int{}
+	for _, e := range effects {
+		if e.Kind != "check" {
+			out = append(out, e)
+			continue
+		}
+		key, need := tryCanon(e.Args[0], map[string]bool{})
+		if need != "" {
+			out = append(out, e)
+			continue
+		}
+		key = fmt.Sprintf("%d|%s", e.Region, key)
+		if i, ok := index[key]; ok {
+			out[i].Guard = simplifyBool(tOr(out[i].Guard, e.Guard))
+			continue
+		}
+		index[key] = len(out)
 		out = append(out, e)
 	}
 	return out
